@@ -44,6 +44,10 @@ def gen_case(r, kind):
     nsteps = r.randint(10, 28)
     if kind == "drift":
         return gen_drift(r, c)
+    if kind == "realbias":
+        c["width"] = r.choice([0.25, 0.5])
+        c["tau"] = c["dt"] * r.choice([16.0, 32.0])
+        return gen_realbias(r, c)
     if kind in ("langevin", "mixed") or (kind in ("reflect", "periodic", "narrow") and r.random() < 0.4):
         c["damping"] = r.choice([1.0, 10.0, 50.5, 200.0, 0.125])
     if kind in ("reflect", "mixed", "narrow", "norun"):
@@ -136,6 +140,66 @@ def drift_twin(c):
     return t
 
 
+def gen_realbias(r, c):
+    """a real bias on the extended variable instead of the scripted force: harmonic / linear (act on the coordinate), harmonicWalls
+    (bypasses by default; with the user's setting on/off)"""
+    c["tsf"], c["same"], c["sub"], c["damping"] = 1, 0, 0, 0.0
+    c["lower"], c["upper"], c["rlo"], c["rup"], c["per"] = 0.0, 2.0, 0, 0, 0
+    kind = r.choice(["harmonic", "linear", "harmonicWalls", "harmonicWalls", "harmonicWalls"])
+    k = r.choice([0.5, 1.0, 2.0])
+    b = {"kw": kind, "k": k, "user": None}
+    if kind == "harmonic":
+        b["center"] = V.dyadic(r, 0.5, 1.5, bits=4)
+        b["body"] = ["centers %r" % b["center"], "forceConstant %r" % k]
+    elif kind == "linear":
+        b["body"] = ["centers 1.0", "forceConstant %r" % k]
+    else:
+        b["lo"], b["up"] = 0.75, 1.25
+        b["body"] = ["lowerWalls %r" % b["lo"], "upperWalls %r" % b["up"], "forceConstant %r" % k]
+        b["user"] = r.choice([None, None, True, False, False])
+        if b["user"] is not None:
+            b["body"].append("bypassExtendedLagrangian %s" % ("on" if b["user"] else "off"))
+    c["biases"] = [b]
+    x = V.dyadic(r, 0.5, 1.5, bits=6)
+    ev = []
+    for t in range(r.randint(10, 20)):
+        if t > 0 and r.random() < 0.7:
+            x = min(1.9, max(0.1, x + V.dyadic(r, -0.25, 0.25, bits=6)))
+        ev.append({"boundary": 0, "running": 1, "x": x, "fb": 0.0, "fba": 0.0})
+    c["events"] = ev
+    c["gauss"] = [0.0]
+    return c
+
+
+def bias_force(c, b, bypass, x_rep, x_actual):
+    """documented force of the bias on the value it sees"""
+    w = c["width"]
+    v = x_actual if bypass else x_rep
+    if b["kw"] == "harmonic":
+        return -b["k"] / (w * w) * (v - b["center"])
+    if b["kw"] == "linear":
+        return -b["k"] / w
+    if v < b["lo"]:
+        return -b["k"] / (w * w) * (v - b["lo"])
+    if v > b["up"]:
+        return -b["k"] / (w * w) * (v - b["up"])
+    return 0.0
+
+
+def fill_real_forces(c, recs, table):
+    """forces that the real bias applied at each step, routed by its bypass flag (table = regenerated from the binary)"""
+    b = c["biases"][0]
+    ent = table.get(b["kw"].lower(), (0, 0))
+    bypass = bool(ent[1]) if b["user"] is None else (b["user"] and bool(ent[0]))
+    for e, rec in zip(c["events"], recs):
+        if rec is None:
+            return False
+        F = bias_force(c, b, bypass, rec["x_rep"], e["x"])
+        e["fb"], e["fba"] = (0.0, F) if bypass else (F, 0.0)
+    c["bypass"] = bypass
+    return True
+
+
 def awake_steps(c):
     """(engine step index, absolute step) for the steps on which the variable is awake"""
     out = []
@@ -163,15 +227,20 @@ def scenario(c, tag):
     L += ["  distanceZ {", "    main { atomNumbers 1 }", "    ref { dummyAtom (0,0,0) }", "    axis (0,0,1)"]
     if c["per"]:
         L += ["    period %r" % c["P"], "    wrapAround %r" % c["ctr"]]
-    L += ["  }", "}", "EOF"]
+    L += ["  }", "}"]
+    for b in c.get("biases", []):
+        L += ["%s {" % b["kw"], "  colvars v"] + ["  " + x_ for x_ in b["body"]] + ["}"]
+    L += ["EOF"]
     cfg_start = L.index("xnew")
     tsf = float(c["tsf"])
     if not c.get("running", 1):
         L.append("running 0")
 
-    def ev_lines(e, first=False):
-        o = ["cvf v %s %s" % (hx(tsf * e["fb"]), hx(tsf * e["fba"])), "pos 1 0 0 %s" % hx(e["x"])]
-        if e["boundary"] and not first:
+    real = bool(c.get("biases"))
+
+    def ev_lines(e, first=False, shift=0.0, force_boundary=False):
+        o = ["cvf v %s %s" % ((hx(0.0), hx(0.0)) if real else (hx(tsf * e["fb"]), hx(tsf * e["fba"]))), "pos 1 0 0 %s" % hx(e["x"] + shift)]
+        if (e["boundary"] and not first) or force_boundary:
             o.append("runboundary")
         o.append("xstep")
         return o
@@ -183,13 +252,22 @@ def scenario(c, tag):
     if K is not None:
         # events 0..K-1 have been executed; event K-1 is executed again by a new object that loaded the state saved after it
         st = "%s.state" % tag
-        L += ["save text %s" % st, "echo RESUME"]
-        L += L[cfg_start:L.index("EOF", L.index("config EOF") + 1) + 1]
-        L += ["load %s" % st, "gauss " + " ".join(hx(g) for g in c["resume_gauss"])]
+        L += ["save text %s" % st]
+        if c.get("reload"):
+            # the same session goes on for two steps, then loads the state it saved (no new object)
+            for dv in (0.125, -0.25):
+                L += ev_lines(dict(c["events"][K - 1], x=c["events"][K - 1]["x"] + dv * c["width"], boundary=0))
+            L += ["echo RESUME", "load %s" % st]
+        else:
+            L += ["echo RESUME"]
+            L += L[cfg_start:L.index("EOF", L.index("config EOF") + 1) + 1]
+            L += ["load %s" % st]
+        L += ["gauss " + " ".join(hx(g) for g in c["resume_gauss"])]
         if not c.get("running", 1):
             L.append("running 0")
         for j in range(K - 1, len(c["events"])):
-            L += ev_lines(c["events"][j], first=(j == K - 1))
+            L += ev_lines(c["events"][j], first=(j == K - 1), shift=(c.get("restart_shift", 0.0) if j == K - 1 else 0.0),
+                          force_boundary=(j == K - 1 and bool(c.get("reload"))))
     return L
 
 
@@ -219,8 +297,9 @@ def model_line(c, restart=None):
         e = c["events"][j]
         rnd = c["gauss"][gu[j]] if gu[j] is not None else 0.0
         st = it - (restart[1] if restart is not None else 0)
-        ins.append("%d %s %s %s %s %d" % (st, hx(e["x"]), hx(tsf * e["fb"]), hx(tsf * e["fba"]), hx(rnd), e["running"]))
-    rs = "0 0x0p+0 0x0p+0 0" if restart is None else "1 %s %s %d" % (hx(restart[2]), hx(restart[3]), restart[1])
+        xj = e["x"] + (c.get("restart_shift", 0.0) if (restart is not None and j == restart[0]) else 0.0)
+        ins.append("%d %s %s %s %s %d" % (st, hx(xj), hx(tsf * e["fb"]), hx(tsf * e["fba"]), hx(rnd), e["running"]))
+    rs = "0 0x0p+0 0x0p+0 0x0p+0 0" if restart is None else "1 %s %s %s %d" % (hx(restart[2]), hx(restart[3]), hx(restart[4] if len(restart) > 4 else 0.0), restart[1])
     return "%s %s %s %s %s %s %d %s %s %d %d %s %d %s %s %d %d %s %d %s" % (
         hx(KB), hx(c["temp"]), hx(c["tol"]), hx(c["tau"]), hx(c["damping"]), hx(c["dt"]), c["tsf"],
         hx(c["lower"]), hx(c["upper"]), c["rlo"], c["rup"], hx(c["width"]), c["per"], hx(c["P"]), hx(c["ctr"]),
@@ -243,8 +322,8 @@ def parse_impl(out):
         elif w[0] == "echo" and len(w) >= 2 and w[1] == "RESUME":
             res[cur + ":resumed"] = [False, []]
             cur = cur + ":resumed"
-        elif w[0] == "LOAD" and "err=ok" not in l:
-            res[cur][0] = False
+        elif w[0] == "LOAD":
+            res[cur][0] = ("err=ok" in l)
         elif w[0] == "CONFIG":
             res[cur][0] = ("err=ok" in l)
         elif w[0] == "X":
@@ -261,7 +340,9 @@ def parse_impl(out):
 
 def parse_model(line):
     parts = line.split("|")
-    prm = [float.fromhex(t) for t in parts[0].split()]
+    hw = parts[0].split()
+    prm = [float.fromhex(t) for t in hw[:4]]
+    prm.append(int(hw[4]) if len(hw) > 4 else 0)
     steps = []
     for p in parts[1:]:
         w = p.split()
@@ -343,6 +424,8 @@ def oracles(run, c, recs, scn, first_event=0, resumed=False):
                 continue
             if (c["rlo"] and val < c["lower"]) or (c["rup"] and val > c["upper"]):
                 sig = "reflect:jump-reinit-outside" if (jumped and nm == "reported") else "reflect:outside"
+                if c["per"] and not (c["rlo"] and c["rup"] and c["ctr"] - c["P"] / 2 <= c["lower"] and c["upper"] < c["ctr"] + c["P"] / 2):
+                    sig = "reflect:periodic-outside-window"
                 run.violation(sig, "%s extended coordinate %r lies outside the reflecting boundaries [%s, %s] at absolute step %d%s"
                               % (nm, val, c["lower"] if c["rlo"] else "-", c["upper"] if c["rup"] else "-", it,
                                  " (re-initialised to the variable's value after a jump at a repeated step, without the clamp applied at initialisation)" if jumped else ""), rep)
@@ -372,7 +455,7 @@ def oracles(run, c, recs, scn, first_event=0, resumed=False):
             run.violation("time-origin:energies", "Ep/Ek = %r/%r at absolute step %d are not those of the reported coordinate %r and on-step velocity %r (expected %r/%r)"
                           % (rec["epot"], rec["ekin"], it, x, von, 0.5 * k * d * d, 0.5 * m * von * von), rep)
             return
-        if not close(rec["energy"], rec["epot"] + rec["ekin"]):
+        if not c.get("biases") and not close(rec["energy"], rec["epot"] + rec["ekin"]):
             run.violation("time-origin:engine-energy", "energy passed to the engine %r is not Ep+Ek = %r at absolute step %d" % (rec["energy"], rec["epot"] + rec["ekin"], it), rep)
             return
         # -- routing: the atoms feel the spring (times the factor) plus bypassing biases only
@@ -513,6 +596,100 @@ def resume_oracle(run, c, K, recs, rrecs, scn):
                 return
 
 
+# ------------------------------------------------------------------------------------ Langevin statistics (thorough tier)
+def langevin_stat_cases(r, nsteps):
+    """long thermostatted runs with frozen atoms and a seeded, standardised Gaussian stream: the stationary second moments of
+    (x - X, v_(t-1/2)) must be the exact discrete fixed point (C17_langevin_stationary_covariance): kT/k, Dt kT/(2m), kT/m"""
+    import random
+    out = []
+    for (tsf, dt, damping, per) in [(1, 1.0, 200.0, 16.0), (1, 2.0, 50.0, 8.0), (2, 1.0, 175.0, 16.0), (3, 0.5, 300.0, 12.0), (2, 2.0, 25.0, 32.0), (4, 0.5, 100.0, 8.0)]:
+        c = {"kind": "langevin-stat", "temp": 300.0, "tol": r.choice([0.25, 0.5]), "dt": dt, "tsf": tsf, "tau": dt * tsf * per, "damping": damping,
+             "width": 0.25, "lower": 0.0, "upper": 2.0, "rlo": 0, "rup": 0, "per": 0, "P": 0.0, "ctr": 0.0, "same": 0, "sub": 0, "running": 1}
+        g = random.Random(r.randint(0, 2 ** 30))
+        xs = [g.gauss(0.0, 1.0) for _ in range(nsteps)]
+        m_ = sum(xs) / len(xs)
+        sd = math.sqrt(sum((a - m_) ** 2 for a in xs) / len(xs))
+        c["gauss"] = [(a - m_) / sd for a in xs]
+        c["events"] = [{"boundary": 0, "running": 1, "x": 1.0, "fb": 0.0, "fba": 0.0} for _ in range(nsteps * tsf)]
+        out.append(c)
+    return out
+
+
+def langevin_stat_oracle(run, c, recs, scn):
+    k, m = doc_params(c)
+    kT = KB * c["temp"]
+    bigdt = c["dt"] * c["tsf"]
+    aw = [rec for (j, it, a), rec in zip(awake_steps(c), recs) if a and rec is not None]
+    aw = aw[len(aw) // 10:]
+    n = len(aw)
+    d = [rec["x_rep"] - 1.0 for rec in aw]
+    v = [rec["v_rep"] for rec in aw]
+    sxx = sum(a * a for a in d) / n
+    svv = sum(a * a for a in v) / n
+    sxv = sum(a * b for a, b in zip(d, v)) / n
+    want = (kT / k, bigdt / 2 * kT / m, kT / m)
+    run.dist("langevin-stat-runs")
+    rep = {"kind": "scenario-head", "scenario": scn[:40], "steps": len(recs), "measured": (sxx, sxv, svv), "exact_fixed_point": want}
+    tol = 0.12
+    if abs(sxx / want[0] - 1) > tol or abs(svv / want[2] - 1) > tol or abs(sxv - want[1]) > tol * math.sqrt(want[0] * want[2]):
+        run.violation("langevin:stationary-covariance",
+                      "thermostatted coordinate, frozen atoms, %d updates (timeStepFactor %d, dt %r, damping %r /ps): <(x-X)^2>, <(x-X)v>, <v^2> = %r, %r, %r; "
+                      "the exact stationary values of the documented scheme are %r, %r, %r (target temperature %r K)"
+                      % (n, c["tsf"], c["dt"], c["damping"], sxx, sxv, svv, want[0], want[1], want[2], c["temp"]), rep)
+
+
+# ------------------------------------------------------------------------------------ bypass table (regenerated from the binary)
+BIAS_CONFIGS = [
+    ("harmonic", ["centers 1.0", "forceConstant 1.0"]),
+    ("harmonicWalls", ["lowerWalls 0.5", "upperWalls 1.5", "forceConstant 1.0"]),
+    ("linear", ["centers 1.0", "forceConstant 1.0"]),
+    ("histogram", []),
+    ("abf", ["fullSamples 10"]),
+    ("metadynamics", ["hillWeight 0.1", "hillWidth 1.0", "newHillFrequency 10"]),
+    ("abmd", ["forceConstant 1.0", "stoppingValue 1.5"]),
+    ("opes_metad", ["barrier 5", "newHillFrequency 10"]),
+    ("alb", ["centers 1.0", "updateFrequency 10"]),
+]
+EXT_COLVAR = ["colvar {", "  name v", "  width 0.25", "  lowerBoundary 0", "  upperBoundary 2", "  extendedLagrangian on", "  extendedFluctuation 0.5",
+              "  extendedTimeConstant 16.0", "  extendedTemp 300.0", "  distanceZ {", "    main { atomNumbers 1 }", "    ref { dummyAtom (0,0,0) }",
+              "    axis (0,0,1)", "  }", "}"]
+
+
+def dump_bypass_table(sim, d):
+    """[(bias type as the code names it, can bypass, bypasses by default)] for every bias kind that can be defined on an extended variable"""
+    L = ["natoms 1", "dt 1.0", "temperature 300", "samestep 0", "prefix", "xnew", "config EOF"] + EXT_COLVAR + ["EOF"]
+    for (kw, body) in BIAS_CONFIGS:
+        L += ["config EOF", "%s {" % kw, "  colvars v"] + ["  " + b for b in body] + ["}", "EOF"]
+    L.append("biastable")
+    open(os.path.join(d, "bt.scn"), "w").write("\n".join(L) + "\n")
+    rc, o, e = V.sh([sim, "bt.scn"], cwd=d)
+    tab = []
+    for l in o.split("\n"):
+        w = l.split()
+        if len(w) == 4 and w[0] == "BT":
+            tab.append((w[1], int(w[2]), int(w[3])))
+    return sorted(set(tab))
+
+
+def write_gen_bypass(tab):
+    os.makedirs(os.path.join(V.COQ, "Gen"), exist_ok=True)
+    p_ = os.path.join(V.COQ, "Gen", "GenBypass.v")
+    txt = "(* GENERATED by props/C17/check.py from the freshly built binary (bias kinds defined on an extendedLagrangian variable); do not edit *)\n"
+    txt += "From Coq Require Import List String Bool. Import ListNotations. Local Open Scope string_scope.\n"
+    txt += "(* (bias type, bypassExtendedLagrangian available, enabled by default) *)\n"
+    txt += "Definition bypass_table : list (string * bool * bool) := [\n"
+    txt += ";\n".join('  ("%s", %s, %s)' % (n_, "true" if a else "false", "true" if b else "false") for (n_, a, b) in tab)
+    txt += "\n].\n"
+    old = open(p_).read() if os.path.exists(p_) else None
+    if old != txt:
+        open(p_, "w").write(txt)
+
+
+def presetup():
+    sim = V.build_prog("c17sim", PROGS["c17sim"])
+    write_gen_bypass(dump_bypass_table(sim, V.scratch("C17pre")))
+
+
 # ------------------------------------------------------------------------------------ driver
 def setup():
     V.extract_model("C17", EXTRACT, DRIVER, ["ocaml/fops.ml"])
@@ -573,6 +750,10 @@ def compare(run, c, tag, scn, impl, mline, mout, first_event=None):
             run.mismatch("step:awake", {"scenario": scn, "model_case": mline, "engine_step": j + first_event}, rec["awake"], ms["awake"])
             return recs
         for fld in FIELDS:
+            if fld == "energy" and c.get("biases"):
+                continue                                   # the engine's energy also contains the bias energy
+            if resumed and c.get("reload") and not rec["awake"] and fld in ("epot", "ekin", "ft"):
+                continue                                   # stale fields of the old trajectory, shown (not used) until the first update
             a, b = rec[fld], ms[fld]
             if fld == "err":
                 same = (a == b)
@@ -596,7 +777,7 @@ def compare(run, c, tag, scn, impl, mline, mout, first_event=None):
 MSTEPS = {}
 
 
-KINDS = ["free", "free", "frozen", "frozen", "reflect", "reflect", "reflect", "langevin", "periodic", "mixed", "mixed", "narrow", "norun", "drift"]
+KINDS = ["realbias", "free", "free", "frozen", "frozen", "reflect", "reflect", "reflect", "langevin", "periodic", "mixed", "mixed", "narrow", "norun", "drift"]
 
 
 def witness_cases():
@@ -617,7 +798,10 @@ def witness_cases():
     # state saved on a step on which a timeStepFactor-2 variable sleeps
     w3 = dict(base, kind="witness-resume-sleeping", tsf=2, rlo=0, rup=0, tau=32.0, resume_at=4)
     w3["events"] = [{"boundary": 0, "running": 1, "x": 0.5 + 0.25 * (t > 0), "fb": 0.0, "fba": 0.0} for t in range(9)]
-    return [w1, w2, w3]
+    # C17_reflect_periodic_one_sided_refuted: periodic variable, only the lower boundary reflecting
+    w4 = dict(base, kind="witness-periodic-one-sided", rlo=1, rup=0, per=1, P=4.0, ctr=0.0, lower=-1.0, upper=1.0, width=0.25, tau=64.0)
+    w4["events"] = [{"boundary": 0, "running": 1, "x": 1.5, "fb": 4.0, "fba": 0.0} for t in range(24)]
+    return [w1, w2, w3, w4]
 
 
 def add_resume(r, c):
@@ -636,9 +820,15 @@ def add_resume(r, c):
     nxt = [K for K in cand if ev[K]["boundary"]]
     if nxt and r.random() < 0.4:
         cand = nxt                                           # the restart step is repeated at a run boundary
-    if not cand or c["kind"] in ("drift", "drift-twin"):
+    if not cand or c["kind"] in ("drift", "drift-twin", "realbias"):
         return
     c["resume_at"] = r.choice(cand)
+    m = r.random()
+    if m < 0.15:
+        c["reload"] = 1                                    # the state is loaded back into the same session two steps later
+    elif m < 0.35 and c["running"]:
+        # the restarted job does not have the coordinates of the state: below / exactly at / above the width/2 threshold
+        c["restart_shift"] = r.choice([-1, 1]) * c["width"] * r.choice([0.25, 0.5, 0.5 + 2.0 ** -5, 1.5])
 
 
 def finish_resume(c):
@@ -665,12 +855,28 @@ def check(run):
                         "external (alchemical) extended variables, non-scalar variables, hidden Jacobian forces and the time-step-factor mismatch error path are outside the model/tie",
                         "on steps on which a timeStepFactor>1 variable sleeps the model has no transition; the check verifies on the implementation that nothing changes and no force is applied",
                         "simulation_running() is a constant of the engine; switching it during a session (no engine does) is outside the property and the tie"]
+    # the bypass table is dumped from the freshly built binary BEFORE the proofs are checked (coq/Gen/GenBypass.v)
+    sim0 = V.build_prog("c17sim", PROGS["c17sim"])
+    tab = dump_bypass_table(sim0, V.scratch("C17pre"))
+    write_gen_bypass(tab)
+    table = {n_: (a_, b_) for (n_, a_, b_) in tab}
     st = V.standard_start(run, PROP, EXTRACT, DRIVER, PROGS)
     if st is None:
         return
     model, exes = st
     sim = exes["c17sim"]
     d = V.scratch("C17")
+    # documented: only harmonicWalls and histogram implement bypassExtendedLagrangian, harmonicWalls enables it by default
+    documented = {"harmonicwalls": (1, 1), "histogram": (1, 0)}
+    for kw, body in BIAS_CONFIGS:
+        n_ = kw.lower()
+        if n_ not in table:
+            run.mismatch("bypass:table-entry", {"bias": kw}, "bias kind could not be defined on an extended variable", "defined")
+        elif table[n_] != documented.get(n_, (0, 0)):
+            run.violation("bypass:table-differs-from-documentation",
+                          "bias kind %s: bypassExtendedLagrangian (available, default) = %r in the binary, the documentation says %r"
+                          % (kw, table[n_], documented.get(n_, (0, 0))), {"kind": "table", "table": tab})
+    run.dist("bypass-table-entries", len(tab))
     cases = witness_cases()
     # corpus
     cdir = os.path.join(V.ROOT, "corpus")
@@ -698,6 +904,12 @@ def check(run):
     scns = [(tag, L) for (tag, c, L, ml, fe) in jobs] + \
            [("r%d" % i, scenario(c, "r%d" % i)) for i, c in enumerate(cases) if c.get("resume_at") is not None]
     impl = run_impl(sim, scns, d)
+    for n_, (tag, c, L, ml, fe) in enumerate(jobs):
+        if c.get("biases"):
+            ok_, recs_ = impl.get(tag, (False, []))
+            if ok_ and len(recs_) == len(c["events"]) and fill_real_forces(c, recs_, table):
+                jobs[n_] = (tag, c, L, model_line(c), fe)
+                run.dist("real-bias:%s:%s" % (c["biases"][0]["kw"], "bypass" if c["bypass"] else "on-coordinate"))
     rc, mout, e = V.run_lines(model, [ml for (tag, c, L, ml, fe) in jobs])
     allrecs = {}
     amps = {}
@@ -733,12 +945,12 @@ def check(run):
     #    against the model started from the saved values (tie); sleeping steps included
     rjobs = [(i, "r%d" % i) for i, c in enumerate(cases) if c.get("resume_at") is not None and i in allrecs]
     scn_by_tag = dict(scns)
-    rlines, rinfo = [], []
+    rlines, rinfo, rcases = [], [], []
     for (i, tag) in rjobs:
         c = cases[i]
         K = c["resume_at"]
         aw = awake_steps(c)
-        sx = sv = None
+        sx = sv = xs = None
         try:
             for l_ in open(os.path.join(d, "%s.state" % tag)):
                 w_ = l_.split()
@@ -746,39 +958,88 @@ def check(run):
                     sx = float(w_[1])
                 if len(w_) == 2 and w_[0] == "extended_v":
                     sv = float(w_[1])
+                if len(w_) == 2 and w_[0] == "x":
+                    xs = float(w_[1])
         except (OSError, ValueError):
             pass
-        rinfo.append((sx, sv))
-        rlines.append(model_line(c, restart=(K - 1, aw[K - 1][1], sx if sx is not None else 0.0, sv if sv is not None else 0.0)))
+        rinfo.append((sx, sv, xs))
+        cs = c
+        if c.get("restart_shift"):
+            # the restarted job computes the restart step from other coordinates
+            cs = dict(c, events=[dict(e_) for e_ in c["events"]])
+            cs["events"][K - 1]["x"] += c["restart_shift"]
+            cs.pop("restart_shift")
+        rcases.append(cs)
+        rlines.append(model_line(cs, restart=(K - 1, aw[K - 1][1], sx if sx is not None else 0.0, sv if sv is not None else 0.0, xs if xs is not None else 0.0)))
     rc, rmout, e = V.run_lines(model, rlines) if rlines else (0, [], "")
     for n_, (i, tag) in enumerate(rjobs):
         c = cases[i]
+        cs = rcases[n_]
         K = c["resume_at"]
         scn = scn_by_tag[tag]
+        aw = awake_steps(c)
         ok1, recs1 = impl.get(tag, (False, []))
         ok2, recs2 = impl.get(tag + ":resumed", (False, []))
         run.dist("resumed-scenarios")
-        run.dist("resumed: state saved on %s step" % ("an awake" if awake_steps(c)[K - 1][2] else "a sleeping"))
+        run.dist("resumed: state saved on %s step" % ("an awake" if aw[K - 1][2] else "a sleeping"))
         if K < len(c["events"]) and c["events"][K]["boundary"]:
             run.dist("resumed: restart step repeated at a run boundary")
-        if not ok1 or not ok2 or len(recs1) != K or any(x is None for x in recs1 + recs2):
-            run.mismatch("scenario:resume-run", {"scenario": scn}, "ok=%s/%s records=%d/%d" % (ok1, ok2, len(recs1), len(recs2)), "%d + %d engine steps" % (K, len(c["events"]) - K + 1))
+        nfirst = K + (2 if c.get("reload") else 0)
+        if not ok1 or not ok2 or len(recs1) != nfirst or any(x is None for x in recs1 + recs2):
+            run.mismatch("scenario:resume-run", {"scenario": scn}, "ok=%s/%s records=%d/%d" % (ok1, ok2, len(recs1), len(recs2)), "%d + %d engine steps" % (nfirst, len(c["events"]) - K + 1))
             continue
         if any(x["err"] for x in recs1):
             run.dist("resume-after-error-skipped")
             continue
-        sx, sv = rinfo[n_]
+        sx, sv, xs = rinfo[n_]
         ms = MSTEPS.get("c%d" % i)
-        if sx is None or sv is None:
-            run.mismatch("state:extended-missing", {"scenario": scn}, "no extended_x/extended_v in the saved state", "present")
+        if sx is None or sv is None or xs is None:
+            run.mismatch("state:extended-missing", {"scenario": scn}, "no x/extended_x/extended_v in the saved state", "present")
             continue
         if ms is not None and len(ms) >= K:
             if not (close(sx, ms[K - 1]["saved_x"], 1e-12) and close(sv, ms[K - 1]["saved_v"], 1e-12)):
                 run.mismatch("state:saved_xv", {"scenario": scn, "model_case": jobs[i][3], "engine_step": K - 1}, (sx, sv), (ms[K - 1]["saved_x"], ms[K - 1]["saved_v"]))
-        resume_oracle(run, c, K, allrecs[i], recs2, scn)
+        if c.get("reload"):
+            run.dist("resumed: state loaded back into the same session")
+        # -- the consistency check of the restarted job
+        shift = c.get("restart_shift", 0.0)
+        want_refused = bool(aw[K - 1][2] and c["running"] and pdiff(c, shift) ** 2 / c["width"] ** 2 > 0.25)
+        rep = {"kind": "scenario", "scenario": scn, "resume_at": K}
+        try:
+            m_refused = bool(parse_model(rmout[n_])[0][4])
+        except Exception:
+            m_refused = None
+        if shift:
+            run.dist("resumed: restarted from other coordinates (%s)" % ("refused" if want_refused else "accepted"))
+        if bool(recs2[0]["err"]) != want_refused:
+            if want_refused:
+                run.violation("resume:wrong-state-accepted", "the restarted job computes %r at the restart step, the state file has %r (difference above width/2 = %r): accepted"
+                              % (cs["events"][K - 1]["x"], xs, c["width"] / 2), rep)
+            else:
+                run.violation("resume:refused", "state saved after engine step %d (absolute step %d, variable %s) and resumed with coordinates giving %r at the first evaluation (saved value %r, width %r): the restart is refused"
+                              % (K - 1, aw[K - 1][1], "awake" if aw[K - 1][2] else "asleep", cs["events"][K - 1]["x"], xs, c["width"]), rep)
+            continue
+        if m_refused is not None and m_refused != bool(recs2[0]["err"]) and aw[K - 1][2]:
+            run.mismatch("restart:refused", {"scenario": scn, "model_case": rlines[n_]}, recs2[0]["err"], m_refused)
+            continue
+        if want_refused:
+            continue
+        if not shift:
+            resume_oracle(run, c, K, allrecs[i], recs2, scn)
         impl_r = {tag: (ok2, recs2)}
-        compare(run, c, tag, scn, impl_r, rlines[n_], rmout[n_] if n_ < len(rmout) else "", first_event=K - 1)
-        oracles(run, c, recs2, scn, first_event=K - 1, resumed=True)
+        compare(run, cs, tag, scn, impl_r, rlines[n_], rmout[n_] if n_ < len(rmout) else "", first_event=K - 1)
+        oracles(run, cs, recs2, scn, first_event=K - 1, resumed=True)
+    # -- thorough tier: stationary second moments of the thermostatted coordinate on the implementation alone
+    if not quick:
+        lcs = langevin_stat_cases(r, 12000)
+        lscn = [("L%d" % i, scenario(c_, "L%d" % i)) for i, c_ in enumerate(lcs)]
+        limpl = run_impl(sim, lscn, d)
+        for i, c_ in enumerate(lcs):
+            ok_, recs_ = limpl.get("L%d" % i, (False, []))
+            if not ok_ or len(recs_) != len(c_["events"]):
+                run.mismatch("scenario:langevin-stat", {"scenario": lscn[i][1][:40]}, "ok=%s records=%d" % (ok_, len(recs_)), "%d engine steps" % len(c_["events"]))
+                continue
+            langevin_stat_oracle(run, c_, recs_, lscn[i][1])
     run.cov["correspondence"].update({"scenarios": len(cases) + len(rjobs), "engine_steps": sum(len(c["events"]) for c in cases)})
 
 
